@@ -188,6 +188,20 @@ def decide(prop, spec, tier, seed, t0, replay=None):
                 axioms_seen += a
             else:
                 notes.append(f"theorem {n}: assumptions not acceptable: {a}")
+    # thorough tier: the independent checker re-checks the compiled closure and lists its axioms
+    coqchk_report = None
+    if ok_make and tier == "thorough":
+        t1 = time.time()
+        p = vlib.sh(["coqchk", "-silent", "-o", "-Q", os.path.join(vlib.COQ, "theories"), "Tftp", f"Tftp.Props.{prop}"],
+                    cwd=vlib.COQ, timeout=3000, check=False)
+        m = re.search(r"\* Axioms:(.*?)\n\s*\n", p.stdout, re.S)
+        axioms = m.group(1).strip() if m else "?"
+        flags = all(re.search(k + r":\s*<none>", p.stdout) for k in ("type-in-type", "unsafe \\(co\\)fixpoints", "positivity is assumed"))
+        coqchk_report = {"exit": p.returncode, "axioms": axioms, "no_unsafe_flags": bool(flags), "wall_s": round(time.time() - t1, 1)}
+        log(f"coqchk: exit {p.returncode}, axioms {axioms} in {time.time() - t1:.0f}s")
+        if p.returncode != 0 or axioms != "<none>" or not flags:
+            notes.append(f"coqchk does not accept the closure of Props/{prop}.vo: {p.stdout[-600:]}")
+            discharged = 0
     broken_proof = (not ok_make) or discharged != obligations
     # 3. builds for the correspondence
     if replay is None:
@@ -302,6 +316,7 @@ def decide(prop, spec, tier, seed, t0, replay=None):
             "trusted_base": TRUSTED_BASE,
             "theorems": names, "assumptions": {k: (v if v == "closed" else v) for k, v in assum.items()},
             "translator": msg or "Consts.v up to date with the source",
+            "coqchk": coqchk_report if coqchk_report is not None else "thorough tier only",
             "evaluations": evaluations, "distinct_nontrivial": nontrivial,
             "rule": "; ".join(f"{s}: {nontrivial_rule(s)}" for s in spec["suites"]),
             "monitor_evaluations_on_implementation_traces": mon_evals,
